@@ -5,6 +5,45 @@ namespace Uwg.Sim
 open Uwg
 variable {S R D Rec E : Type}
 
+theorem traceLoop_of_drvLoop (dt N rows : Nat) :
+    ∀ (steps it : Nat) (c : Clock) (n : Nat) (tr : List StepTrace),
+      drvLoop dt N rows steps it c n = .ok tr → traceLoop dt N rows steps it c n = (tr, none) := by
+  intro steps
+  induction steps with
+  | zero => intro it c n tr h; simp [drvLoop] at h; simp [traceLoop, h]
+  | succ steps ih =>
+    intro it c n tr h
+    simp only [drvLoop] at h
+    cases hs : drvStep dt N rows it c n with
+    | error e => simp [hs] at h
+    | ok p =>
+      obtain ⟨c', n', t⟩ := p
+      simp only [hs] at h
+      cases hl : drvLoop dt N rows steps (it + 1) c' n' with
+      | error e => simp [hl] at h
+      | ok rest =>
+        simp only [hl] at h
+        cases h
+        simp [traceLoop, hs, ih (it + 1) c' n' rest hl]
+
+/-- When the driver runs through (`driver cfg = ok tr`), `simulate` is the loop body iterated over
+    that trace. -/
+theorem simulate_of_driver_ok (P : Phys S R D Rec E) (soil : Soil D) (dt M Dy days : Nat)
+    (rows : List R) (s0 : S) (tr : List StepTrace)
+    (h : driver ⟨dt, M, Dy, days, rows.length⟩ = .ok tr) :
+    simulate P soil dt M Dy days rows s0 = runSteps P (deepAt soil) rows tr s0 [] := by
+  unfold driver at h
+  unfold simulate
+  cases hc : Clock.create dt M Dy with
+  | error e => cases e <;> simp [hc] at h
+  | ok c0 =>
+    simp only [hc] at h
+    have ht := traceLoop_of_drvLoop _ _ _ _ _ _ _ tr h
+    simp only [ht]
+    cases runSteps P (deepAt soil) rows tr s0 [] with
+    | error x => rfl
+    | ok p => rfl
+
 theorem runSteps_append (P : Phys S R D Rec E) (deep : StepTrace → D) (rows : List R)
     (pre suf : List StepTrace) :
     ∀ (s : S) (acc : List Rec),
